@@ -234,6 +234,21 @@ func c01Apply(ref *refFile, res *vfOpResult, closed bool) string {
 			return fmt.Sprintf("WriteAt(%d bytes, %d) = (%d, %v)", op.N, op.Off, res.N, res.Err)
 		}
 	case "readfrom", "readfromc":
+		var kind, hd, failAt, ch int
+		failAt = -1
+		fmt.Sscanf(op.S, "%d,%d,%d,%d", &kind, &hd, &failAt, &ch)
+		if failAt >= 0 && failAt <= op.N {
+			// the source fails after failAt bytes: those bytes are written, the offset advances by them,
+			// and the source's error is returned
+			if failAt > 0 {
+				ref.writeAt(res.Data[:failAt], ref.off)
+			}
+			ref.off += int64(failAt)
+			if res.Err != vfErrSource || res.N != int64(failAt) {
+				return fmt.Sprintf("%s(source failing after %d of %d bytes) = (%d, %v), want (%d, source error)", op.K, failAt, op.N, res.N, res.Err, failAt)
+			}
+			return ""
+		}
 		if op.N > 0 {
 			ref.writeAt(res.Data, ref.off)
 		}
